@@ -160,7 +160,12 @@ pub fn run_workers(args: &CheckArgs) -> Aggregate {
         match rx.recv_timeout(Duration::from_millis(250)) {
             Ok(Event::Line(id, line)) => {
                 let Some(w) = workers.get_mut(&id) else { continue };
-                if let Some(rest) = line.strip_prefix("S ") {
+                if line == "P" {
+                    // A build of the current case finished: the clock starts again.
+                    if let Some((i, _)) = w.current {
+                        w.current = Some((i, Instant::now()));
+                    }
+                } else if let Some(rest) = line.strip_prefix("S ") {
                     if let Ok(i) = rest.trim().parse::<u64>() {
                         w.current = Some((i, Instant::now()));
                         w.next_offset = i + stride;
